@@ -244,3 +244,163 @@ def bodyFramed : List Nat := {lean_list(frm, 20)}
 end Wz.Gen.Framing
 """
     return write("Framing", body, "src/werkzeug/serving.py (WSGIRequestHandler.run_wsgi)")
+
+
+def run_wsgi_structure():
+    """facts read off the AST of WSGIRequestHandler.run_wsgi (no execution) that the state-machine model
+    (Model/DevServerRun.lean) transcribes; unknown shapes give False / [] and break the obligation"""
+    import ast
+    import os
+
+    from extract_lib import REPO
+
+    tree = ast.parse(open(os.path.join(REPO, "src", "werkzeug", "serving.py")).read())
+    h = next(n for n in tree.body if isinstance(n, ast.ClassDef) and n.name == "WSGIRequestHandler")
+    rw = next(n for n in h.body if isinstance(n, ast.FunctionDef) and n.name == "run_wsgi")
+    inner = {n.name: n for n in rw.body if isinstance(n, ast.FunctionDef)}
+    u = ast.unparse
+    f = {"expectTest": "", "continueLiteral": b"", "zeroChunkLiteral": b"", "writeAsserts": [], "sentOnlyWhenNone": False,
+         "startResponseTests": [], "closingWriteTest": "", "terminatorTest": "", "closeInFinally": False, "appCallOutsideTry": False,
+         "rollbackOnlyWhenUnsent": False, "fallbackIsInternalServerError": False, "fallbackErrorsSwallowed": False,
+         "wfileWritesInWrite": [], "connectionCloseAlways": False}
+    first = rw.body[0]
+    if isinstance(first, ast.If) and len(first.body) == 1:
+        f["expectTest"] = u(first.test)
+        c = first.body[0]
+        if isinstance(c, ast.Expr) and isinstance(c.value, ast.Call) and u(c.value.func) == "self.wfile.write" and isinstance(c.value.args[0], ast.Constant):
+            f["continueLiteral"] = c.value.args[0].value
+    w = inner.get("write")
+    if w is not None:
+        f["writeAsserts"] = [u(s.test) for s in w.body if isinstance(s, ast.Assert)]
+        heads = [s for s in w.body if isinstance(s, ast.If) and u(s.test) == "status_sent is None"]
+        sends = [n for n in ast.walk(w) if isinstance(n, ast.Call) and u(n.func) in ("self.send_response", "self.send_header", "self.end_headers")]
+        f["sentOnlyWhenNone"] = len(heads) == 1 and all(any(n is m for m in ast.walk(heads[0])) for n in sends) and bool(sends)
+        f["wfileWritesInWrite"] = sorted(u(n.args[0]) for n in ast.walk(w) if isinstance(n, ast.Call) and u(n.func) == "self.wfile.write")
+        if heads:
+            conn = [n for n in heads[0].body if isinstance(n, ast.Expr) and u(n.value) == "self.send_header('Connection', 'close')"]
+            f["connectionCloseAlways"] = len(conn) == 1
+    sr = inner.get("start_response")
+    if sr is not None:
+        f["startResponseTests"] = [u(n.test) for n in ast.walk(sr) if isinstance(n, ast.If)]
+    ex = inner.get("execute")
+    if ex is not None and len(ex.body) == 2 and isinstance(ex.body[1], ast.Try):
+        f["appCallOutsideTry"] = u(ex.body[0]) == "application_iter = app(environ, start_response)"
+        tr = ex.body[1]
+        ifs = [s for s in tr.body if isinstance(s, ast.If)]
+        for s in ifs:
+            if len(s.body) == 1 and u(s.body[0]) == "write(b'')":
+                f["closingWriteTest"] = u(s.test)
+            if len(s.body) == 1 and isinstance(s.body[0], ast.Expr) and isinstance(s.body[0].value, ast.Call) and u(s.body[0].value.func) == "self.wfile.write":
+                f["terminatorTest"] = u(s.test)
+                f["zeroChunkLiteral"] = s.body[0].value.args[0].value
+        closes = [s for s in tr.finalbody if isinstance(s, ast.If) and u(s.test) == "hasattr(application_iter, 'close')" and u(s.body[0]) == "application_iter.close()"]
+        all_closes = [n for n in ast.walk(ex) if isinstance(n, ast.Call) and u(n.func) == "application_iter.close"]
+        f["closeInFinally"] = len(closes) == 1 and len(all_closes) == 1 and not tr.handlers
+    outer = [s for s in rw.body if isinstance(s, ast.Try)]
+    if len(outer) == 1:
+        hd = [x for x in outer[0].handlers if x.type is not None and u(x.type) == "Exception"]
+        if len(hd) == 1:
+            body = hd[0].body
+            rb = [n for n in ast.walk(hd[0]) if isinstance(n, ast.If) and u(n.test) == "status_sent is None"]
+            f["rollbackOnlyWhenUnsent"] = len(rb) == 1 and [u(s) for s in rb[0].body] == ["status_set = None", "headers_set = None"] and not rb[0].orelse
+            inner_try = [s for s in body if isinstance(s, ast.Try)]
+            if len(inner_try) == 1:
+                calls = [u(n) for n in ast.walk(inner_try[0]) if isinstance(n, ast.Call) and u(n.func) == "execute"]
+                f["fallbackIsInternalServerError"] = calls == ["execute(InternalServerError())"]
+                hh = inner_try[0].handlers
+                f["fallbackErrorsSwallowed"] = len(hh) == 1 and u(hh[0].type) == "Exception" and [u(s) for s in hh[0].body] == ["pass"]
+    return f
+
+
+@generator("RunWsgiFacts")
+def gen_run_wsgi_facts():
+    f = run_wsgi_structure()
+    from extract_lib import lean_bytes, lean_str
+
+    def sl(xs):
+        return "[" + ", ".join(lean_str(x) for x in xs) + "]"
+
+    body = f"""namespace Wz.Gen.RunWsgiFacts
+
+/-! facts read off the AST of `WSGIRequestHandler.run_wsgi` (tools/gen/c19.py: run_wsgi_structure) -/
+
+/-- the test of the first statement (`if …: self.wfile.write(<continueLiteral>)`) -/
+def expectTest : String := {lean_str(f["expectTest"])}
+def continueLiteral : List UInt8 := {lean_bytes(f["continueLiteral"])}
+/-- the `assert`s at the top of `write` -/
+def writeAsserts : List String := {sl(f["writeAsserts"])}
+/-- `send_response` / `send_header` / `end_headers` are called only inside `if status_sent is None:` -/
+def sentOnlyWhenNone : Bool := {lean_bool(f["sentOnlyWhenNone"])}
+/-- `self.send_header("Connection", "close")` is an unconditional statement of that block -/
+def connectionCloseAlways : Bool := {lean_bool(f["connectionCloseAlways"])}
+/-- arguments of the `self.wfile.write(...)` calls in `write`, sorted -/
+def wfileWritesInWrite : List String := {sl(f["wfileWritesInWrite"])}
+/-- the `if` / `elif` tests of `start_response`, outermost first -/
+def startResponseTests : List String := {sl(f["startResponseTests"])}
+/-- `execute` calls the application before its `try` -/
+def appCallOutsideTry : Bool := {lean_bool(f["appCallOutsideTry"])}
+/-- the test guarding the closing `write(b"")` -/
+def closingWriteTest : String := {lean_str(f["closingWriteTest"])}
+/-- the test guarding the terminating chunk, and the chunk -/
+def terminatorTest : String := {lean_str(f["terminatorTest"])}
+def zeroChunkLiteral : List UInt8 := {lean_bytes(f["zeroChunkLiteral"])}
+/-- the only `application_iter.close()` sits in the `finally` of `execute`, under `hasattr(…, "close")` -/
+def closeInFinally : Bool := {lean_bool(f["closeInFinally"])}
+/-- error path: `if status_sent is None: status_set = None; headers_set = None` -/
+def rollbackOnlyWhenUnsent : Bool := {lean_bool(f["rollbackOnlyWhenUnsent"])}
+/-- ... then `execute(InternalServerError())` inside `try: … except Exception: pass` -/
+def fallbackIsInternalServerError : Bool := {lean_bool(f["fallbackIsInternalServerError"])}
+def fallbackErrorsSwallowed : Bool := {lean_bool(f["fallbackErrorsSwallowed"])}
+
+end Wz.Gen.RunWsgiFacts
+"""
+    return write("RunWsgiFacts", body, "src/werkzeug/serving.py (WSGIRequestHandler.run_wsgi)")
+
+
+# request header names -> environ keys: every branch of make_environ's key mapping
+ENV_NAMES = ["Content-Type", "content-type", "CONTENT-TYPE", "Content-Length", "content-length", "Content_Type", "Content_Length", "Content-Encoding",
+             "content-encoding", "Content-Disposition", "Content-Range", "Content-MD5", "Content-Language", "Content-Location", "Content-Typex", "Content-Type-",
+             "Content-Lengths", "X-Content-Type", "X-Content-Length", "Content", "Content-", "Content-Type_", "Http-Content-Type", "Http-Host", "Host", "HOST",
+             "X-A", "x-a", "X_A", "X-A_B", "X-A-B", "Accept", "Cookie", "User-Agent", "User_Agent", "Server-Name", "Remote-Addr", "Path-Info", "Wsgi.Input",
+             "Transfer-Encoding", "Expect", "X1", "X.Dot"]
+
+_BASE_ENV_KEYS = {"SERVER_SOFTWARE", "REQUEST_METHOD", "SCRIPT_NAME", "PATH_INFO", "QUERY_STRING", "REQUEST_URI", "RAW_URI", "REMOTE_ADDR", "REMOTE_PORT",
+                  "SERVER_NAME", "SERVER_PORT", "SERVER_PROTOCOL", "SSL_CLIENT_CERT"}
+
+
+def env_of_headers(headers):
+    """the environ entries the real make_environ derives from these request headers (everything that is not
+    one of its fixed keys), in insertion order"""
+    seen = {}
+
+    def app(environ, start_response):
+        seen["env"] = [(k, v) for k, v in environ.items() if isinstance(v, str) and k not in _BASE_ENV_KEYS and not k.startswith(("wsgi.", "werkzeug."))]
+        start_response("200 OK", [("Content-Length", "0")])
+        return []
+
+    raw = "GET / HTTP/1.1\r\n" + "".join(f"{k}: {v}\r\n" for k, v in headers) + "\r\n"
+    run_in_memory(raw.encode("latin-1"), app)
+    return seen.get("env")
+
+
+@generator("EnvKeys")
+def gen_env_keys():
+    def lstr(x):
+        return "[" + ", ".join(f"Char.ofNat {ord(c)}" for c in x) + "]"
+
+    rows = []
+    for name in ENV_NAMES:
+        # the header twice with different values (the repeated-header rule), next to an unrelated one
+        obs = env_of_headers([(name, "v1"), ("X-Other", "o"), (name, "v2")])
+        if obs is None:
+            raise RuntimeError(f"the application was not called for header name {name!r}")
+        rows.append(f"({lstr(name)}, [" + ", ".join(f"({lstr(k)}, {lstr(v)})" for k, v in obs) + "])")
+    body = f"""namespace Wz.Gen.EnvKeys
+
+/-- for each request header name: the environ entries (beyond make_environ's fixed keys, in insertion order)
+that the real `make_environ` derived from the request headers `name: v1`, `X-Other: o`, `name: v2` -/
+def table : List (List Char × List (List Char × List Char)) := {lean_list(rows, 1)}
+
+end Wz.Gen.EnvKeys
+"""
+    return write("EnvKeys", body, "src/werkzeug/serving.py (WSGIRequestHandler.make_environ)")
